@@ -297,6 +297,22 @@ def gen_Q(rng, Lam, Sig, mean):
     return qk, mean + delta, S, delta
 
 
+def dense_cl_operator(ift, dom, tgt, M):
+    """a user-defined nifty.cl LinearOperator applying the dense matrix M (tgt.size x dom.size)"""
+    class Dense(ift.LinearOperator):
+        def __init__(self):
+            self._domain = ift.DomainTuple.make(dom)
+            self._target = ift.DomainTuple.make(tgt)
+            self._capability = self.TIMES | self.ADJOINT_TIMES
+
+        def apply(self, x, mode):
+            self._check_input(x, mode)
+            v = x.asnumpy()
+            r = M @ v if mode == self.TIMES else M.T @ v
+            return ift.makeField(self._tgt(mode), r)
+    return Dense()
+
+
 def case_elbo_re(ck, rng, bad, with_cl=False):
     jnp, jft, jax, ift = (ck.state[k] for k in ("jnp", "jft", "jax", "ift"))
     n, m, R, iv, d = gen_gauss_model(rng)
@@ -310,9 +326,9 @@ def case_elbo_re(ck, rng, bad, with_cl=False):
     Rj, ivj, dj = jnp.asarray(R), jnp.asarray(iv), jnp.asarray(d)
     if dictlat:
         k1 = n // 2
-        fwd = lambda x: Rj[:, :k1] @ x["a"] + Rj[:, k1:] @ x["b"]        # noqa
-        wrap = lambda v: {"a": jnp.asarray(v[..., :k1]), "b": jnp.asarray(v[..., k1:])}   # noqa
-        dom = {"a": jft.ShapeWithDtype((k1,)), "b": jft.ShapeWithDtype((n - k1,))}
+        fwd = lambda x: Rj[:, :k1] @ x.tree["a"] + Rj[:, k1:] @ x.tree["b"]        # noqa
+        wrap = lambda v: jft.Vector({"a": jnp.asarray(v[..., :k1]), "b": jnp.asarray(v[..., k1:])})   # noqa
+        dom = jft.Vector({"a": jft.ShapeWithDtype((k1,)), "b": jft.ShapeWithDtype((n - k1,))})
     else:
         fwd = lambda x: Rj @ x                                           # noqa
         wrap = lambda v: jnp.asarray(v)                                  # noqa
@@ -435,7 +451,7 @@ def case_elbo_re(ck, rng, bad, with_cl=False):
     if not with_cl:
         return
     dd, ld = ift.UnstructuredDomain(m), ift.UnstructuredDomain(n)
-    Rop = ift.MatrixProductOperator(ld, R)
+    Rop = dense_cl_operator(ift, ld, dd, R)
     lhc = ift.GaussianEnergy(ift.makeField(dd, d), ift.makeOp(ift.makeField(dd, iv), sampling_dtype=float)) @ Rop
     ham = ift.StandardHamiltonian(lhc)
     half = res[:n]
